@@ -826,8 +826,11 @@ fn util_cycle_kind(core: &Value) -> Option<&'static str> {
 pub fn scan_fingerprint(role: &str, doc: &[u8]) -> String {
   let fp = input_fingerprint(role, doc);
   const REL: &str = "cyclic utils through relational rules";
+  const RWS: &str = "rewriter rewriting with itself";
   if fp.contains(REL) {
     format!("c11 {REL}")
+  } else if fp.contains(RWS) {
+    format!("c11 {RWS}")
   } else {
     fp
   }
@@ -881,6 +884,16 @@ pub fn input_fingerprint(role: &str, doc: &[u8]) -> String {
           ids.dedup();
           if ids.len() < n {
             feats.push("duplicate-rewriter-id".into());
+          }
+          // a rewriter whose own transformation applies a `rewrite` with itself
+          for r in a {
+            let Some(id) = r.get("id").and_then(|s| s.as_str()) else { continue };
+            let selfref = r.get("transform").and_then(|t| t.as_object()).map(|t| {
+              t.values().any(|x| x.get("rewrite").and_then(|w| w.get("rewriters")).and_then(|l| l.as_array()).map(|l| l.iter().any(|y| y.as_str() == Some(id))).unwrap_or(false))
+            });
+            if selfref == Some(true) {
+              feats.push("rewriter rewriting with itself".into());
+            }
           }
         }
         a.iter().for_each(|x| walk(x, key, feats))
@@ -950,6 +963,29 @@ pub fn yaml_scan(ctx: &Ctx, rng: &mut Rng, o: &mut Out) {
   }
   for w in super::yaml_gen::witnesses() {
     docs.push((w.into_bytes(), "witness", "rule"));
+  }
+  // project configurations: every list / map empty, repeated, missing on disk, wrongly typed
+  for w in [
+    "ruleDirs: [rules]\nutilDirs: []\n",
+    "ruleDirs: []\n",
+    "ruleDirs: [rules]\ntestConfigs: []\n",
+    "ruleDirs: [rules]\ntestConfigs:\n  - testDir: tests\n    snapshotDir: ''\n",
+    "ruleDirs: [rules]\nlanguageGlobs: {}\n",
+    "ruleDirs: [rules]\nlanguageGlobs: {js: []}\n",
+    "ruleDirs: [rules]\ncustomLanguages: {}\n",
+    "ruleDirs: [rules, rules]\nutilDirs: [utils, utils]\n",
+    "ruleDirs: [nonexistent]\nutilDirs: [nonexistent]\n",
+    "ruleDirs: [rules]\nutilDirs: ['']\n",
+    "ruleDirs: ['']\n",
+    "ruleDirs: [rules]\nlanguageInjections: []\n",
+    "ruleDirs: [rules]\nutilDirs: [rules]\n",
+    "{}\n",
+    "ruleDirs: null\n",
+    "ruleDirs: rules\n",
+    "ruleDirs: [rules]\nutilDirs: null\n",
+    "ruleDirs: [rules]\ntestConfigs: [{testDir: ''}]\n",
+  ] {
+    docs.push((w.as_bytes().to_vec(), "witness", "sgconfig"));
   }
   for _ in 0..n_mut {
     let s = &seeds[rng.below(seeds.len())];
